@@ -981,7 +981,17 @@ pub fn run_c08(tier: Tier) -> i32 {
         ScenCfg { prop: "C08".into(), max_conns: 2, max_calls: 4, max_events: tier.pick(6, 7), bursts: sizes, faults: vec![], max_faults: 0, closes: false, cuts: true, short_reads: true, delay_polls: true, write_fault_on_stream: false },
         tier.pick(1, 2),
     ));
-    run_plan("C08", tier, RULE, base_assumptions(), &["pipelined-burst", "oneway-call", "burst-cut-mid-frame", "several-events-before-a-poll", "fault-with-other-connections-live"], plan)
+    let mut a = base_assumptions();
+    a.push("in the real-transport phase (child process `sockets c08-child`) the server runs over the listeners and transports of zlink-tokio and zlink-smol with plain std clients that stay, half-close their sending side or close, right after writing or once the server is idle: a client that can still read gets exactly its replies, everything it sent before hanging up is handled once; a client that closed altogether is owed nothing but the handling of its leading oneway calls".into());
+    run_plan_with(
+        "C08",
+        tier,
+        RULE,
+        a,
+        &["pipelined-burst", "oneway-call", "burst-cut-mid-frame", "several-events-before-a-poll", "fault-with-other-connections-live"],
+        plan,
+        Some(("sockets", "c08-child", "real-listeners-and-transports/tokio+smol(child)", &["client-half-closes-before-the-server-reads", "oneway-call-then-close"])),
+    )
 }
 
 /// C07 also runs the server: `Server::run` drops every pending receive future whenever another arm
